@@ -3,6 +3,7 @@
 From Coq Require Import List QArith ZArith NArith Bool Arith.
 From QmcV Require Import Model.Prog Model.Sse Model.Nav Model.Ham Model.Diagonal Model.Cluster Model.Loop
      Proofs.ProgLemmas Proofs.DiagonalProofs Proofs.SseWeight Proofs.LoopProofs Proofs.HamProofs Proofs.ThermalProofs.
+From QmcV Require Import Model.Diagonal Proofs.Expect Proofs.SweepStationary Proofs.GroupKernel Proofs.TimestepStationary.
 Import ListNotations.
 Open Scope Q_scope.
 
@@ -95,3 +96,26 @@ Theorem C04_loop_closes_consistently : forall H fuel (sl : slots) (st : state),
   all_out_r good (loop_update fuel H sl st).
 Proof. exact loop_update_wf. Qed.
 Print Assumptions C04_loop_closes_consistently.
+
+(* for interaction sets on which the cluster update runs (symmetric diagonal terms + constant single-site terms,
+   no loops): the generic sampler's pipeline — diagonal update, cluster update, free-spin refresh, with the
+   Hamiltonian table built from the interaction list — leaves the SSE weight of ITS matrices stationary *)
+Theorem C04_cluster_pipeline_stationary : forall bonds beta L nv xs,
+  (0 < beta)%Q -> (0 < h_nbonds (qmc_ham bonds))%nat -> tspace_ok (qmc_ham bonds) L nv xs ->
+  forall f : cfg -> Q,
+    (Qsum (map (fun x => sse_weight (qmc_ham bonds) beta (snd x)
+                         * expect (pipeline_cfg (update_cfg (met_update (qmc_ham bonds) beta)) x) f) xs)
+     == Qsum (map (fun x => sse_weight (qmc_ham bonds) beta (snd x) * f x) xs))%Q.
+Proof. intros bonds. exact (metropolis_timestep_stationary (qmc_ham bonds)). Qed.
+Print Assumptions C04_cluster_pipeline_stationary.
+
+(* and its diagonal update alone, Metropolis or heat bath, on the complete configuration space of any
+   interaction list (no symmetry needed) *)
+Theorem C04_diagonal_update_stationary : forall bonds beta L sts,
+  (0 < beta)%Q -> (0 < h_nbonds (qmc_ham bonds))%nat ->
+  forall f : cfg -> Q,
+    (Qsum (map (fun x => sse_weight (qmc_ham bonds) beta (snd x)
+                         * expect (update_cfg (met_update (qmc_ham bonds) beta) x) f) (canon (qmc_ham bonds) sts L))
+     == Qsum (map (fun x => sse_weight (qmc_ham bonds) beta (snd x) * f x) (canon (qmc_ham bonds) sts L)))%Q.
+Proof. intros bonds. exact (metropolis_update_stationary_canon (qmc_ham bonds)). Qed.
+Print Assumptions C04_diagonal_update_stationary.
